@@ -1,4 +1,4 @@
-import BobEM.Lemmas.FAIdent
+import BobEM.Lemmas.EnrollAscent
 
 /-!
 # C07 — ISV and JFA enrolment climbs to the joint posterior mode of the latent factors
@@ -6,85 +6,83 @@ import BobEM.Lemmas.FAIdent
 Model: `BobEM.FA.updateY`, `latentX`, `updateZ`, `sweep`, `enroll`, `logPost`
 (`factor_analysis.py: update_y / _compute_fn_y_i / _compute_id_plus_vprod_i, compute_latent_x,
 update_z, ISVMachine.enroll, JFAMachine.enroll`).  ISV is the case `rV = 0`.
-`updateY` conditions on `m + D z` (repair of D7).
+`updateY` conditions on `m + D z` (repair of D7).  `logPost` is the joint log-posterior of the
+enrolment data and the latent factors under `mean = m + V y + U x_h + D z`, standard-normal priors and
+the UBM's diagonal covariances, written in terms of the enrolment statistics.
 -/
 
 open Matrix Finset BobEM BobEM.FA
 
 variable {C D rU rV : ℕ}
 
-/-- posterior precision of a block with loading `L` and counts `n` -/
-noncomputable def faPrecision {r : ℕ} (M : Model C D rU rV ℝ) (L : Fin C → Fin D → Fin r → ℝ) (n : Fin C → ℝ) :
-    Matrix (Fin r) (Fin r) ℝ := Matrix.of fun a b => eye r a b + prodN M L n a b
-
-theorem faPrecision_posDef {r : ℕ} (M : Model C D rU rV ℝ) (L : Fin C → Fin D → Fin r → ℝ) (n : Fin C → ℝ)
-    (hn : ∀ c, 0 ≤ n c) (hs : ∀ c d, 0 < M.s c d) : (faPrecision M L n).PosDef := by
-  have := Pmat_posDef (ι := Unit) (fun _ k => n k.1) (fun k : Fin C × Fin D => M.s k.1 k.2)
-    (fun _ k => hn k.1) (fun k => hs k.1 k.2) (rowsOf L) ()
-  rwa [← idPlus_eq_Pmat] at this
-
-theorem faPrecision_symm {r : ℕ} (M : Model C D rU rV ℝ) (L : Fin C → Fin D → Fin r → ℝ) (n : Fin C → ℝ)
-    (hn : ∀ c, 0 ≤ n c) (hs : ∀ c d, 0 < M.s c d) : (faPrecision M L n)ᵀ = faPrecision M L n := by
-  have := (faPrecision_posDef M L n hn hs).isHermitian
-  rwa [Matrix.IsHermitian, Matrix.conjTranspose_eq_transpose_of_trivial] at this
-
 /-- the speaker-factor update solves `(I + Vᵀ Σ⁻¹ N V) y = Vᵀ Σ⁻¹ (F − N (m + D z) − Σ_h N_h U x_h)` -/
 theorem C07_y_solves_normal_equations (M : Model C D rU rV ℝ) (sts : List (St C D ℝ)) (xs : List (Fin rU → ℝ))
     (z : Fin C → Fin D → ℝ) (hn : ∀ c, 0 ≤ nAcc sts c) (hs : ∀ c d, 0 < M.s c d) :
     faPrecision M M.V (nAcc sts) *ᵥ updateY M sts xs z
-      = projT M M.V (fun c d => fAcc sts c d - nAcc sts c * (M.m c d + 1 * (M.Dd c d * z c d)) - uxTerm M sts xs c d) := by
-  have hP := faPrecision_posDef M M.V (nAcc sts) hn hs
-  have hsym := faPrecision_symm M M.V (nAcc sts) hn hs
-  have hy : updateY M sts xs z = (faPrecision M M.V (nAcc sts))⁻¹ *ᵥ
-      projT M M.V (fun c d => fAcc sts c d - nAcc sts c * (M.m c d + 1 * (M.Dd c d * z c d)) - uxTerm M sts xs c d) := by
-    have hinv : ((faPrecision M M.V (nAcc sts))⁻¹)ᵀ = (faPrecision M M.V (nAcc sts))⁻¹ := by
-      rw [Matrix.transpose_nonsing_inv, hsym]
-    funext a
-    simp only [updateY, updateYG, idPlusInv, LinAlg.inv, BobEM.FA.vecMul, sumFin_eq, Matrix.mulVec, dotProduct]
-    have : ∀ b, ((faPrecision M M.V (nAcc sts))⁻¹) b a = ((faPrecision M M.V (nAcc sts))⁻¹) a b := by
-      intro b; have := congrFun (congrFun hinv a) b; simpa [Matrix.transpose_apply] using this
-    refine Finset.sum_congr rfl fun b _ => ?_
-    rw [mul_comm]; congr 1; exact this b
-  rw [hy]; exact posDef_mul_inv_mulVec hP _
+      = projT M M.V (fun c d => fAcc sts c d - nAcc sts c * (M.m c d + 1 * (M.Dd c d * z c d)) - uxTerm M sts xs c d) :=
+  y_solves_normal_equations M sts xs z hn hs
 
 /-- each channel-factor update solves `(I + Uᵀ Σ⁻¹ N_h U) x = Uᵀ Σ⁻¹ (F_h − N_h (m + D z + V y))` -/
 theorem C07_x_solves_normal_equations (M : Model C D rU rV ℝ) (st : St C D ℝ) (y : Fin rV → ℝ)
     (z : Fin C → Fin D → ℝ) (hn : ∀ c, 0 ≤ st.n c) (hs : ∀ c d, 0 < M.s c d) :
     faPrecision M M.U st.n *ᵥ latentX M st y z
-      = projT M M.U (fun c d => st.f c d - st.n c * (M.m c d + M.Dd c d * z c d) - st.n c * apply M.V y c d) := by
-  have hP := faPrecision_posDef M M.U st.n hn hs
-  have hx : latentX M st y z = (faPrecision M M.U st.n)⁻¹ *ᵥ
-      projT M M.U (fun c d => st.f c d - st.n c * (M.m c d + M.Dd c d * z c d) - st.n c * apply M.V y c d) := by
-    funext a
-    simp only [latentX, idPlusInv, LinAlg.inv, BobEM.FA.mulVec, sumFin_eq, Matrix.mulVec, dotProduct, faPrecision]
-  rw [hx]; exact posDef_mul_inv_mulVec hP _
+      = projT M M.U (fun c d => st.f c d - st.n c * (M.m c d + M.Dd c d * z c d) - st.n c * apply M.V y c d) :=
+  x_solves_normal_equations M st y z hn hs
 
-/-- the residual-offset update is the solution of the diagonal system
-`(1 + D² N / σ) z = (D / σ)(F − N (m + V y) − Σ_h N_h U x_h)` -/
+/-- the residual-offset update solves the diagonal system -/
 theorem C07_z_closed_form (M : Model C D rU rV ℝ) (sts : List (St C D ℝ)) (xs : List (Fin rU → ℝ))
     (y : Fin rV → ℝ) (c : Fin C) (d : Fin D) (hn : 0 ≤ nAcc sts c) (hs : 0 < M.s c d) :
     (1 + M.Dd c d / M.s c d * M.Dd c d * nAcc sts c) * updateZ M sts xs y c d
-      = M.Dd c d / M.s c d * (fAcc sts c d - nAcc sts c * (M.m c d + apply M.V y c d) - uxTerm M sts xs c d) := by
-  have hpos : 0 < 1 + M.Dd c d / M.s c d * M.Dd c d * nAcc sts c := by
-    have : 0 ≤ M.Dd c d / M.s c d * M.Dd c d * nAcc sts c := by
-      have h1 : 0 ≤ M.Dd c d / M.s c d * M.Dd c d := by
-        rw [div_mul_eq_mul_div]; exact div_nonneg (mul_self_nonneg _) hs.le
-      exact mul_nonneg h1 hn
-    linarith
-  simp only [updateZ]
-  field_simp
+      = M.Dd c d / M.s c d * (fAcc sts c d - nAcc sts c * (M.m c d + apply M.V y c d) - uxTerm M sts xs c d) :=
+  z_closed_form M sts xs y c d hn hs
+
+/-- **the y update is the block maximiser**: no other value of the speaker factor gives a higher
+joint log-posterior with the channel factors and the offset fixed -/
+theorem C07_block_is_argmax_y (M : Model C D rU rV ℝ) (sts : List (St C D ℝ)) (y' : Fin rV → ℝ) (xs : List (Fin rU → ℝ))
+    (z : Fin C → Fin D → ℝ) (hlen : xs.length = sts.length)
+    (hn : ∀ st ∈ sts, ∀ c, 0 ≤ st.n c) (hs : ∀ c d, 0 < M.s c d) :
+    logPost M sts ⟨y', xs, z⟩ ≤ logPost M sts ⟨updateY M sts xs z, xs, z⟩ :=
+  y_update_ascent M sts y' xs z hlen hn hs
+
+/-- **the x updates are the block maximisers** (all sessions at once: they are independent given y, z) -/
+theorem C07_block_is_argmax_x (M : Model C D rU rV ℝ) (sts : List (St C D ℝ)) (y : Fin rV → ℝ) (z : Fin C → Fin D → ℝ)
+    (xs' : List (Fin rU → ℝ)) (hlen : xs'.length = sts.length)
+    (hn : ∀ st ∈ sts, ∀ c, 0 ≤ st.n c) (hs : ∀ c d, 0 < M.s c d) :
+    logPost M sts ⟨y, xs', z⟩ ≤ logPost M sts ⟨y, sts.map fun st => latentX M st y z, z⟩ :=
+  x_sweep_ascent M sts y z xs' hlen hn hs
+
+/-- **the z update is the block maximiser** -/
+theorem C07_block_is_argmax_z (M : Model C D rU rV ℝ) (sts : List (St C D ℝ)) (y : Fin rV → ℝ) (xs : List (Fin rU → ℝ))
+    (z' : Fin C → Fin D → ℝ) (hlen : xs.length = sts.length)
+    (hn : ∀ c, 0 ≤ nAcc sts c) (hs : ∀ c d, 0 < M.s c d) :
+    logPost M sts ⟨y, xs, z'⟩ ≤ logPost M sts ⟨y, xs, updateZ M sts xs y⟩ :=
+  z_update_ascent M sts y xs z' hlen hn hs
+
+/-- **enrolment is monotone**: the joint log-posterior after `k + 1` iterations is at least that after
+`k`, for ISV (`rV = 0`) and JFA, any number of sessions, fractional counts -/
+theorem C07_enroll_monotone (M : Model C D rU rV ℝ) (sts : List (St C D ℝ)) (k : ℕ)
+    (hn : ∀ st ∈ sts, ∀ c, 0 ≤ st.n c) (hs : ∀ c d, 0 < M.s c d) :
+    logPost M sts (enroll M sts k) ≤ logPost M sts (enroll M sts (k + 1)) :=
+  enroll_monotone M sts k hn hs
+
+/-- hence the posterior of `k` iterations is non-decreasing in `k` -/
+theorem C07_enroll_monotone_le (M : Model C D rU rV ℝ) (sts : List (St C D ℝ)) (j k : ℕ) (hjk : j ≤ k)
+    (hn : ∀ st ∈ sts, ∀ c, 0 ≤ st.n c) (hs : ∀ c d, 0 < M.s c d) :
+    logPost M sts (enroll M sts j) ≤ logPost M sts (enroll M sts k) := by
+  induction k with
+  | zero => simp at hjk; subst hjk; exact le_refl _
+  | succ k ih =>
+    rcases Nat.lt_or_ge j (k + 1) with h | h
+    · exact le_trans (ih (by omega)) (C07_enroll_monotone M sts k hn hs)
+    · have : j = k + 1 := by omega
+      subst this; exact le_refl _
 
 /-- the executed (materialised) enrolment computes the specification's iterates -/
 theorem C07_exec_eq_spec (M : Model C D rU rV ℝ) (sts : List (St C D ℝ)) (k : ℕ) :
-    (enrollV M sts k).ofV = enroll M sts k := by
-  have e1 : ∀ {n : ℕ} (f : Fin n → ℝ) (i : Fin n), (Vector.ofFn f)[i] = f i := by
-    intro n f i; simp
-  have e2 : ∀ {n m : ℕ} (f : Fin n → Fin m → ℝ) (c : Fin n) (d : Fin m),
-      (Vector.ofFn fun c => Vector.ofFn (f c))[c][d] = f c d := by
-    intro n m f c d; simp
-  induction k with
-  | zero =>
-    simp only [enrollV, enroll, Lat.toV, LatV.ofV, Lat.zero, List.map_map, Function.comp_def, e1, e2, List.map_replicate]
-  | succ k ih =>
-    simp only [enrollV, enroll, sweepV, sweep, ← ih]
-    simp only [LatV.ofV, List.map_map, Function.comp_def, e1, e2]
+    (enrollV M sts k).ofV = enroll M sts k :=
+  enroll_exec_eq_spec M sts k
+
+/-- non-vacuity: one component, one feature, JFA ranks one, two sessions with positive counts -/
+example : ∃ (M : Model 1 1 1 1 ℝ) (sts : List (St 1 1 ℝ)), (∀ st ∈ sts, ∀ c, 0 ≤ st.n c) ∧ (∀ c d, 0 < M.s c d) ∧ sts.length = 2 :=
+  ⟨⟨fun _ _ => 0, fun _ _ => 1, fun _ _ _ => 1, fun _ _ _ => 1, fun _ _ => 1⟩, [⟨fun _ => 2, fun _ _ => 1, 2⟩, ⟨fun _ => 1, fun _ _ => -1, 1⟩],
+    by intro st h c; simp at h; rcases h with rfl | rfl <;> norm_num, by intro c d; norm_num, rfl⟩
